@@ -320,6 +320,26 @@ func c16Pipelines(r *Run) {
 			seen[lang] = true
 			r.Eval()
 			r.Distinct(fmt.Sprintf("p%d-%s", c, lang))
+			// a union of a string constant and string becomes a struct with two members named String (C02 finding
+			// "String redeclared"): "every field covered exactly once" has no meaning for such a struct
+			dupMembers := false
+			for _, sc := range schemas {
+				sc.Objects.Iterate(func(_ string, o ast.Object) {
+					if o.Type.Kind == ast.KindStruct && o.Type.Struct != nil {
+						names := map[string]bool{}
+						for _, f := range o.Type.Struct.Fields {
+							if names[f.Name] {
+								dupMembers = true
+							}
+							names[f.Name] = true
+						}
+					}
+				})
+			}
+			if dupMembers {
+				r.Count("pipeline_languages_with_duplicate_member_names(not judged, C02 finding)", 1)
+				return
+			}
 			if cls, detail := compareBuilders(schemas, builders); cls != "" {
 				r.Violation("pipeline-derivation/"+cls, fmt.Sprintf("language %s of a five-language run (%s input): %s", lang, format, detail), map[string]any{"format": format, "schema": string(txt), "language": lang})
 			}
